@@ -59,6 +59,10 @@ func runCase(out *hx.Out, title string, cfg config, ops []op) {
 		for _, v := range mon.step(o, obs) {
 			out.ViolF("%s", v)
 		}
+		for _, b := range s.gateMisses(obs) {
+			out.Count("gate-miss")
+			out.ViolF("c10gate proposer duty of slot %d (validator index %d) was handed to the runners, but the duty store - the one the message validator looks proposer duties up in - no longer holds it: every consensus message of this duty is rejected (no duty)", b.slot, b.vidx)
+		}
 	}
 	s.close()
 	for k, v := range mon.counts {
